@@ -72,6 +72,7 @@ def case_doc(i):
     return U.doc("Z3", d - N_Z1)
 
 
+INLINE_KINDS = {"text", "emphasis", "end-emphasis", "link", "end-link", "image", "icode-span", "raw-html", "uri-autolink", "email-autolink", "hard-break"}
 _POS = re.compile(r"^\[([a-z\-A-Z]+)\((\d+),(\d+)\)")
 
 
@@ -206,7 +207,7 @@ def run_items(items, job):
                     v.add(f"{tag}:token-content-differs")
                 else:
                     kinds = sorted({x[0] for x, y in zip(a, b) if x != y})
-                    v.add(f"{tag}:positions-not-shifted:" + ",".join(kinds[:4]))
+                    v.add(f"{tag}:positions-not-shifted:" + ("inline" if set(kinds) <= INLINE_KINDS else ",".join(kinds[:2])))
                 detail["tokens_expected"] = [str(x) for x in a][:40]
                 detail["tokens_got"] = [str(x) for x in b][:40]
         # (2)/(3) failures.  Every fourth case enables ONLY the named rule: suppression must not depend on
@@ -255,7 +256,7 @@ def run_items(items, job):
                     cls.append("not-suppressed")
                 elif extra_:
                     cls.append("new-or-moved-failure")
-                v.add(f"{tag}:failures:" + "+".join(cls) + ":" + ",".join(rules[:3]))
+                v.add(f"{tag}:failures:" + "+".join(cls) + ":" + (rules[0] if rules else "-"))
                 detail["failures_expected"] = sorted(want)[:12]
                 detail["failures_got"] = sorted(got)[:12]
             pe = [(e[1], e[2]) for e in o2.pragma_errors]
